@@ -9,3 +9,4 @@ import JominiModel.Props.C08
 #print axioms Jomini.Props.C08.C08_stream_eq_lexer
 #print axioms Jomini.Props.C08.C08_slice_eq_lexer
 #print axioms Jomini.Props.C08.C08_stream_with_faults
+#print axioms Jomini.Props.C08.C08_too_small_is_error
